@@ -48,7 +48,10 @@ def main():
     def simple(idx):
         return SimpleOperation('list_dir' if idx % 2 else 'is_file', ['/in/%d' % idx],
                                ['a', 'b'] if idx % 2 else True,
-                               None if idx % 3 else 'FileNotFoundError', True)
+                               # failure markers: the class name of ANY OSError the query raised
+                               (None, 'FileNotFoundError', 'OSError', None, 'PermissionError',
+                                'NotADirectoryError', None, 'IsADirectoryError',
+                                'BlockingIOError')[idx % 9], True)
 
     # tree shapes as nested tuples of child-shapes, total complex nodes <= MAXOPS, depth <= 3
     def shapes(nodes, depth):
